@@ -463,4 +463,97 @@ ClimbsFrom(segs, i, depth) ==
   ELSE IF segs[i] = <<DOT>> THEN ClimbsFrom(segs, i + 1, depth)
   ELSE ClimbsFrom(segs, i + 1, depth + 1)
 ClimbsAboveRoot(segs) == ClimbsFrom(segs, 1, 0)
+
+\* ======================================================================== C04
+(* CanonicalUrl(s, usesNetloc): the canonical language, as a recogniser.  TLC decides canonicity, so  *)
+(* the harness cannot smuggle a non-canonical input in and blame the library.                       *)
+CanonPortText(scheme, pt) ==
+  /\ AllDigits(pt) /\ Len(pt) <= 5 /\ (Len(pt) = 1 \/ pt[1] # 48) /\ DigitsVal(pt) <= 65535
+  /\ Some(DigitsVal(pt)) # DefaultPort(scheme)
+\* reg-name / IPv4 hosts only (bracketed literals are C16's subject): lower-case ASCII, legal characters,
+\* escapes lower-case (the host is lower-cased as a whole, not re-quoted)
+RECURSIVE CanonHostFrom(_, _)
+CanonHostFrom(h, i) ==
+  IF i > Len(h) THEN TRUE
+  ELSE IF h[i] = PCT THEN i + 2 <= Len(h) /\ h[i + 1] \in HexLower /\ h[i + 2] \in HexLower /\ CanonHostFrom(h, i + 3)
+  ELSE h[i] \in (Unreserved \cup SubDelims) \ UpperAlpha /\ CanonHostFrom(h, i + 1)
+CanonHost(h) == h # <<>> /\ CanonHostFrom(h, 1)
+SchemeNeedsHost(sc) == DefaultPort(sc) # None      \* http https ws wss ftp
+CanonicalUrl(s, usesNetloc) ==
+  LET a  == AppendixB(s)
+      sa == SplitAuthority(a.authority)
+      h  == Find(s, HASH)
+      bh == IF h = 0 THEN s ELSE Upto(s, h - 1) IN
+  /\ a.scheme = LowerS(a.scheme)
+  /\ ~(\E d \in {FindIn(s, 1, {COLON, SLASH, QMARK, HASH})} : d > 1 /\ s[d] = COLON /\ a.scheme = <<>>)   \* no scheme-like junk
+  /\ IF a.hasAuth THEN
+        IF a.authority = <<>> THEN a.scheme # <<>> /\ a.scheme \in usesNetloc /\ ~SchemeNeedsHost(a.scheme)
+        ELSE /\ ~Has(a.authority, LBR) /\ ~Has(a.authority, RBR)
+             /\ (sa.hasUserinfo => (sa.user # <<>> \/ sa.hasPassword))
+             /\ CanonicalText("user", sa.user) /\ CanonicalText("password", sa.password)
+             /\ CanonHost(sa.host)
+             /\ (sa.hasPort => CanonPortText(a.scheme, sa.port))
+     ELSE ~(a.scheme # <<>> /\ a.scheme \in usesNetloc) \/ (a.path # <<>> /\ a.path[1] # SLASH)
+  /\ CanonicalText("path", a.path)
+  /\ (a.hasAuth /\ a.authority # <<>>) => (~HasDotSeg(a.path) /\ (a.path = <<>> => (a.query = <<>> /\ a.fragment = <<>>)))
+  /\ CanonicalText("query", a.query) /\ (Has(bh, QMARK) => a.query # <<>>)
+  /\ CanonicalText("fragment", a.fragment) /\ (h > 0 => a.fragment # <<>>)
+C04_Unchanged(s, o) == Ok(o.str) /\ V(o.str) = s
+
+\* ======================================================================== C10
+\* a comparison record: a, b observations (val), the six operator results, hash equality
+NormKey5(o) == <<Scheme5(o), Netloc5(o), IF Path5(o) = <<>> /\ Netloc5(o) # <<>> THEN <<SLASH>> ELSE Path5(o), Query5(o), Frag5(o)>>
+C10_EqDef(r) == r.eq = (NormKey5(r.a) = NormKey5(r.b)) /\ r.ne = ~r.eq
+C10_Hash(r) == r.eq => r.hash_eq
+C10_Symmetric(r) == r.eq = r.eq_rev
+C10_Trichotomy(r) == Cardinality({x \in {"lt", "eq", "gt"} : r[x]}) = 1
+C10_LeGe(r) == r.le = (r.lt \/ r.eq) /\ r.ge = (r.gt \/ r.eq) /\ r.gt = r.lt_rev
+C10_NonUrl(r) == ~r.eq_str /\ ~r.eq_none /\ ~r.eq_split /\ ~r.eq_int
+\* triples
+C10_Transitive(t) == /\ (t.eq_ab /\ t.eq_bc) => t.eq_ac
+                     /\ (t.lt_ab /\ t.lt_bc) => t.lt_ac
+                     /\ (t.le_ab /\ t.le_bc) => t.le_ac
+
+\* ======================================================================== C12
+\* typed query values: [t |-> "str"|"int"|"float"|"bool"|"none"|"bytes"|"list"|"tuple", s |-> text of str(v), items |-> ...]
+NonFinite == { <<110,97,110>>, <<105,110,102>>, <<45,105,110,102>> }        \* "nan" "inf" "-inf"
+SimpleOk(tv) == tv.t \in {"str", "int"} \/ (tv.t = "float" /\ tv.s \notin NonFinite)
+SeqForms == {"mapping", "multidict", "kwargs"}          \* forms whose values may be list/tuple
+ValueOk(form, tv) == IF tv.t \in {"list", "tuple"} THEN form \in SeqForms /\ \A i \in 1..Len(tv.items) : SimpleOk(tv.items[i])
+                     ELSE SimpleOk(tv)
+QArgOk(q) == q.form \in {"none", "str"} \/ \A i \in 1..Len(q.pairs) : ValueOk(q.form, q.pairs[i][2])
+\* the pairs a (valid) query argument denotes, in order
+PairsOfValue(k, tv) == IF tv.t \in {"list", "tuple"} THEN [i \in 1..Len(tv.items) |-> <<k, tv.items[i].s>>] ELSE << <<k, tv.s>> >>
+ExpandPairs(q) == Flat([i \in 1..Len(q.pairs) |-> PairsOfValue(q.pairs[i][1], q.pairs[i][2])])
+\* a query STRING argument: '&' and the first '=' are syntax, '+' is a space, '%' is literal text
+PlusToSpace(t) == [i \in 1..Len(t) |-> IF t[i] = PLUS THEN SPACE ELSE t[i]]
+PlainPairs(str) == LET pieces == SelectSeq(Split(str, AMP), LAMBDA p : p # <<>>) IN
+   [i \in 1..Len(pieces) |-> LET pr == Partition(pieces[i], EQ) IN <<PlusToSpace(pr[1]), PlusToSpace(pr[3])>>]
+ArgPairs(q) == IF q.form = "str" THEN PlainPairs(q.s) ELSE ExpandPairs(q)
+ArgHasSurrogate(q) == IF q.form = "str" THEN HasSurrogate(q.s)
+                      ELSE \E i \in 1..Len(ArgPairs(q)) : HasSurrogate(ArgPairs(q)[i][1]) \/ HasSurrogate(ArgPairs(q)[i][2])
+KeysOf(ps) == {ps[i][1] : i \in 1..Len(ps)}
+ValuesFor(ps, k) == LET sel == SelectSeq(ps, LAMBDA p : p[1] = k) IN [i \in 1..Len(sel) |-> sel[i][2]]
+ArgEmpty(q) == q.form = "none" \/ (q.form = "str" /\ q.s = <<>>) \/ (q.form # "str" /\ q.pairs = <<>>)
+IsTypeOrValueError(out) == ~Ok(out) /\ out.exc \in {"TypeError", "ValueError"}
+
+C12_Gate(q, out) == ~QArgOk(q) => IsTypeOrValueError(out)
+C12_WithQuery(q, S, out) ==
+  (QArgOk(q) /\ ~ArgHasSurrogate(q)) =>
+     (Ok(out) /\ Ok(out.ok.query) /\ V(out.ok.query) = (IF q.form = "none" THEN <<>> ELSE ArgPairs(q)))
+C12_ExtendQuery(q, S, out) ==
+  (QArgOk(q) /\ ~ArgHasSurrogate(q) /\ Ok(S.query)) =>
+     (Ok(out) /\ Ok(out.ok.query) /\ V(out.ok.query) = V(S.query) \o (IF q.form = "none" THEN <<>> ELSE ArgPairs(q)))
+C12_UpdateQuery(q, S, out) ==
+  (QArgOk(q) /\ ~ArgHasSurrogate(q) /\ Ok(S.query) /\ ~(q.form = "str" /\ Has(q.s, PCT))) =>
+     (Ok(out) /\ Ok(out.ok.query) /\
+      LET R == V(out.ok.query) O == V(S.query) N == ArgPairs(q) IN
+      IF q.form = "none" THEN R = <<>>
+      ELSE IF ArgEmpty(q) THEN R = O
+      ELSE LET K == IF q.form = "str" THEN KeysOf(N) ELSE {q.pairs[i][1] : i \in 1..Len(q.pairs)} IN   \* a key with an empty list value occurs in q
+           /\ SelectSeq(R, LAMBDA p : p[1] \notin K) = SelectSeq(O, LAMBDA p : p[1] \notin K)
+           /\ \A k \in K : ValuesFor(R, k) = ValuesFor(N, k))
+C12_Without(keys, S, out) ==
+  Ok(S.query) => (Ok(out) /\ Ok(out.ok.query) /\
+                  V(out.ok.query) = SelectSeq(V(S.query), LAMBDA p : p[1] \notin Range(keys)))
 =============================================================================
